@@ -4,7 +4,12 @@ Real code exercised: saml2.attribute_converter (ac_factory with and without a pa
 AttributeConverter.from_dict/adjust/to_/to_eptid_value/ava_from/lcd_ava_from, from_local,
 list_to_local), saml2.s_utils.do_ava/factory, and — for the cases marked "xml" — the serialisation of
 saml.Attribute and its parsing back (what a received assertion goes through before
-read_attribute_statement/to_local sees it).
+read_attribute_statement/to_local sees it).  Cases with a "glue" field run the same operations through the
+code real entities put around the converters (config.Config.load_complex -> attribute_converters /
+allow_unknown_attributes, assertion.Assertion.construct + Policy.get_name_form, response.AuthnResponse.
+read_attribute_statement/get_identity, Server.create_authn_response/create_attribute_response,
+Saml2Client.parse_authn_request_response); the Lean model is the same: the glue must be the identity on what
+the converters return.
 
 Case kinds (`op`):
   to_wire    identity -> wire attributes            (from_local / acs[i].to_)
@@ -32,7 +37,9 @@ RULE = ("every (map, attribute) pair of the bundled maps in both directions and 
         "one-directional, aliases, several wire names per local name, asymmetric, case-colliding, shared "
         "formats, eduPersonTargetedID) x identities/statements mixing known, alias, case-variant, unknown, "
         "unspecified-format, nameless attributes x value lists (empty list, empty string, padded, unicode, "
-        "booleans, integers, None, bare scalars) x allow_unknown_attributes x object/XML transport; "
+        "booleans, integers, None, bare scalars) x allow_unknown_attributes x object/XML transport x "
+        "{converters called directly, through Assertion.construct/AuthnResponse objects configured from a real "
+        "SPConfig, through Server.create_*_response and Saml2Client.parse_authn_request_response}; "
         "non-trivial = the model path is not a set-up error or a pure string-operation case")
 TRUSTED = [
     "Gen/AttrMaps.lean is regenerated from the imported saml2.attributemaps modules by harness/translate/attrmaps.py",
@@ -49,6 +56,10 @@ ASSUMPTIONS = [
     "values handed to the eduPersonTargetedID special case are scalars (dictionary items with "
     "NameQualifier/SPNameQualifier are not modelled on the sending side)",
     "extension elements inside received AttributeValues are saml:NameID elements (what to_eptid_value produces)",
+    "cases run through real entities ('glue') use map sets an entity can be configured with (the bundled default or "
+    "a directory of map modules), from_local's own choice of the sending converter, statements that can be "
+    "serialised, and - for the full Saml2Client path - attributes with a non-empty Name; an absent attribute "
+    "statement is read as None exactly when no map of the set has the requested name format",
     "eduPersonTargetedID values are text that XML 1.0 carries unchanged (ava_from serialises and re-parses the "
     "NameID elements); with XML transport the same holds for every value",
 ]
@@ -74,7 +85,9 @@ _state = {}
 
 
 def setup():
-    pass
+    import scenario as S
+
+    S.install()  # xmlsec1 stand-in + virtual clock for the cases that run through real entities
 
 
 # ------------------------------------------------------------------ the map sets
@@ -111,13 +124,18 @@ def is_map(d):
 _counter = [0]
 
 
-def _acs_from_modules(maps):
-    """Write real map modules and load them with ac_factory(path)."""
-    from saml2.attribute_converter import ac_factory
+import contextlib  # noqa: E402
 
+
+@contextlib.contextmanager
+def _map_dir(maps):
+    """A directory of real map modules for `maps` (what `attribute_map_dir` points at); the modules are
+    unloaded and the directory removed on exit (the converters built meanwhile keep their tables)."""
     _counter[0] += 1
     d = tempfile.mkdtemp(prefix="c17maps_")
     names = []
+    old = sys.dont_write_bytecode
+    sys.dont_write_bytecode = True
     try:
         i = 0
         idx = 0
@@ -138,18 +156,187 @@ def _acs_from_modules(maps):
                 f.write("NOT_A_MAP = {'to': {'x': 'y'}}\n__private = {'identifier': 'p', 'to': {'x': 'y'}}\n")
             i += len(group)
             idx += 1
-        old = sys.dont_write_bytecode
-        sys.dont_write_bytecode = True
-        try:
-            return ac_factory(d)
-        finally:
-            sys.dont_write_bytecode = old
+        yield d
     finally:
+        sys.dont_write_bytecode = old
         for n in names:
             sys.modules.pop(n, None)
         while d in sys.path:
             sys.path.remove(d)
         shutil.rmtree(d, ignore_errors=True)
+
+
+def _acs_from_modules(maps):
+    """Write real map modules and load them with ac_factory(path)."""
+    from saml2.attribute_converter import ac_factory
+
+    with _map_dir(maps) as d:
+        return ac_factory(d)
+
+
+# ------------------------------------------------------------------ the glue real entities put around the converters
+#
+# case["glue"]:
+#   None        the converters are called directly (from_local / acs[i].to_ / list_to_local)
+#   "objects"   send: assertion.Assertion(identity).construct(sp, config.attribute_converters, Policy(name_form))
+#               receive: response.AuthnResponse(sec, config.attribute_converters, entity_id,
+#                        allow_unknown_attributes=config.allow_unknown_attributes).read_attribute_statement /
+#                        .get_identity();  the converters and the option come from a real SPConfig/IdPConfig
+#                        (bundled maps, or attribute_map_dir pointing at real map modules)
+#   "entities"  send: Server.create_authn_response / create_attribute_response (name_form from the IdP's policy)
+#               receive: Saml2Client.parse_authn_request_response on the unsigned Response, `.ava`
+# The Lean model is the same in every case: the glue must be the identity on what the converters return.
+
+SP_GLUE = "https://sp.verif.example/sp"
+AUTHN = {"class_ref": "urn:oasis:names:tc:SAML:2.0:ac:classes:Password", "authn_auth": "https://idp.verif.example/login"}
+
+
+def _glue_cache(key, build):
+    c = _state.setdefault("glue", {})
+    if key not in c:
+        if len(c) > 24:
+            c.clear()
+        c[key] = build()
+    return c[key]
+
+
+def _maps_key(case):
+    return json.dumps(case["maps"], sort_keys=True)
+
+
+def _with_map_conf(case, fn):
+    """fn(extra_config) with `attribute_map_dir` set for custom map sets (the bundled maps are the default)."""
+    if "bundled" in case["maps"]:
+        return fn({})
+    with _map_dir(raw_maps(case)) as d:
+        return fn({"attribute_map_dir": d})
+
+
+def _light_config(case, allow):
+    import scenario as S
+    from saml2.config import SPConfig
+
+    def build():
+        def load(extra):
+            c = SPConfig()
+            c.load(dict({"entityid": SP_GLUE, "service": {"sp": {}}, "xmlsec_binary": S.xmlsec_standin.BINARY,
+                         "allow_unknown_attributes": allow}, **extra))
+            return c
+        return _with_map_conf(case, load)
+    return _glue_cache(("conf", _maps_key(case), allow), build)
+
+
+def _idp(case, nf):
+    import scenario as S
+
+    def build():
+        pol = {"default": {"lifetime": {"minutes": 15}, "attribute_restrictions": None, "name_form": nf}}
+
+        def make(extra):
+            conf = S.idp_config(idp={"policy": pol}, **extra)
+            # create_attribute_response takes its policy from the attribute-authority service
+            conf["service"]["aa"] = {"endpoints": {"attribute_service": [("https://idp.verif.example/aa", S.BINDING_SOAP)]},
+                                     "policy": pol}
+            return S.make_idp(conf)
+        return _with_map_conf(case, make)
+    return _glue_cache(("idp", _maps_key(case), nf), build)
+
+
+def _sp(case, allow):
+    import scenario as S
+
+    def build():
+        sp = {"want_response_signed": False, "want_assertions_signed": False}
+        return _with_map_conf(case, lambda extra: S.make_sp(S.sp_config(sp=sp, allow_unknown_attributes=allow, **extra)))
+    return _glue_cache(("sp", _maps_key(case), allow), build)
+
+
+def _name_id():
+    from saml2 import saml
+
+    return saml.NameID(text="subject-c17", format=saml.NAMEID_FORMAT_TRANSIENT)
+
+
+def _glue_send(case):
+    """-> the Attribute objects of the statement the glue produced ([] when there is no statement)."""
+    import scenario as S
+    from saml2 import saml
+    from saml2.assertion import Assertion, Policy
+    from saml2.server import Server
+
+    ava = {k: _py_vals(v) for k, v in case["ava"]}
+    if case["glue"] == "objects":
+        conf = _light_config(case, False)
+        farg = Server.update_farg("id-c17", S.SP_ACS_POST)
+        a = Assertion(ava).construct(SP_GLUE, conf.attribute_converters, Policy({"default": {"name_form": case["nf"]}}),
+                                     issuer=saml.Issuer(text=S.IDP_ID), farg=farg["assertion"], name_id=_name_id())
+        return a, a
+    idp = _idp(case, case["nf"])
+    with S.clock(S.NOW0):
+        if case.get("via_query"):
+            resp = idp.create_attribute_response(ava, "id-c17", S.SP_ACS_POST, S.SP_ID, name_id=_name_id(), sign_response=False,
+                                                 sign_assertion=False)
+        else:
+            resp = idp.create_authn_response(ava, "id-c17", S.SP_ACS_POST, S.SP_ID, name_id=_name_id(), authn=AUTHN,
+                                             sign_response=False, sign_assertion=False)
+    return resp.assertion, resp
+
+
+def _statement_attrs(assertion):
+    st = assertion.attribute_statement or []
+    if len(st) > 1:
+        raise ValueError("more than one attribute statement")
+    return list(st[0].attribute) if st else []
+
+
+def _has_format(case, nf):
+    return any(is_map(m) and m["identifier"] == nf for m in raw_maps(case))
+
+
+def _glue_receive_objects(case, attrs):
+    """attrs: saml.Attribute objects -> local dictionary through a real AuthnResponse object."""
+    import scenario as S
+    from saml2 import saml
+    from saml2.response import AuthnResponse
+    from saml2.sigver import CryptoBackendXmlSec1, SecurityContext
+
+    conf = _light_config(case, case["allow"])
+    resp = AuthnResponse(SecurityContext(CryptoBackendXmlSec1(S.xmlsec_standin.BINARY)), conf.attribute_converters,
+                         conf.entityid, allow_unknown_attributes=conf.allow_unknown_attributes)
+    stmt = saml.AttributeStatement(attribute=attrs)
+    assertion = saml.Assertion(attribute_statement=[stmt])
+    resp.assertion = assertion
+    resp.assertions = [assertion]
+    direct = resp.read_attribute_statement(stmt)
+    ident = resp.get_identity()
+    return ident if ident == direct else {"__glue__": ["read_attribute_statement and get_identity differ"]}
+
+
+def _glue_receive_entities(case, resp_obj):
+    """A Response object (unsigned) -> what Saml2Client.parse_authn_request_response reports as `.ava`."""
+    import base64
+
+    import scenario as S
+
+    sp = _sp(case, case["allow"])
+    xml = str(resp_obj)
+    with S.clock(S.NOW0):
+        r = sp.parse_authn_request_response(base64.b64encode(xml.encode("utf-8")).decode("ascii"), S.BINDING_POST,
+                                            outstanding={"id-c17": "/"})
+    return r.ava
+
+
+def _template_response(attrs):
+    """An unsigned Response of a real IdP whose attribute statement is replaced by `attrs`."""
+    import scenario as S
+    from saml2 import saml
+
+    idp = _glue_cache(("idp-template",), lambda: S.make_idp(S.idp_config()))
+    with S.clock(S.NOW0):
+        resp = idp.create_authn_response({}, "id-c17", S.SP_ACS_POST, S.SP_ID, name_id=_name_id(), authn=AUTHN,
+                                         sign_response=False, sign_assertion=False)
+    resp.assertion.attribute_statement = [saml.AttributeStatement(attribute=attrs)]
+    return resp
 
 
 def build_acs(case):
@@ -274,6 +461,9 @@ def run_impl(case):
     if op == "strops":
         s = case["s"]
         return {"lower": s.lower(), "strip": s.strip(), "truthy": bool(s), "int": str(case["i"])}
+    glue = case.get("glue")
+    if glue:
+        return _run_glue(case)
     acs = build_acs(case)
     if acs is None:
         return {"r": "raised"}
@@ -305,6 +495,42 @@ def run_impl(case):
             w = _via_xml(w)
         try:
             d = list_to_local(acs, w, case["allow"])
+        except Exception:
+            return {"r": "raised"}
+        return {"r": "ok", "ava": _canon_local(d)}
+    raise ValueError(op)
+
+
+def _run_glue(case):
+    """The same three operations through the code real entities run.  An absent attribute statement is read
+    as `None` (from_local found no converter) exactly when no map of the set has the requested name format,
+    otherwise as the empty list."""
+    op, glue = case["op"], case["glue"]
+    if op in ("to_wire", "roundtrip"):
+        try:
+            assertion, resp = _glue_send(case)
+        except Exception:  # do_ava / set_text refuse a value
+            return {"r": "raised"}
+        attrs = _statement_attrs(assertion)
+        if not attrs and not _has_format(case, case["nf"]):
+            return {"r": "none"}
+        if op == "to_wire":
+            return {"r": "ok", "attrs": [_canon_attr(a) for a in attrs]}
+        try:
+            if glue == "objects":
+                d = _glue_receive_objects(case, _via_xml(attrs))
+            else:
+                d = _glue_receive_entities(case, resp)
+        except Exception:
+            return {"r": "raised"}
+        return {"r": "ok", "ava": _canon_local(d)}
+    if op == "to_local":
+        attrs = [_mk_attr(j) for j in case["attrs"]]
+        try:
+            if glue == "objects":
+                d = _glue_receive_objects(case, _via_xml(attrs) if case.get("xml") else attrs)
+            else:
+                d = _glue_receive_entities(case, _template_response(attrs))
         except Exception:
             return {"r": "raised"}
         return {"r": "ok", "ava": _canon_local(d)}
@@ -840,6 +1066,47 @@ def _xml_safe_eptid(case):
     return case
 
 
+def glue_eligible(case):
+    """The map set can be given to a real entity: the bundled default, or real map modules in a directory."""
+    if case.get("op") not in ("to_wire", "to_local", "roundtrip") or case.get("send") is not None:
+        return False
+    m = case["maps"]
+    if "bundled" in m:
+        return m["bundled"] == list(range(len(_bundled_raw())))
+    return case.get("via") == "module" and any(is_map(x) for x in raw_maps(case))
+
+
+def glue_variant(rng, case, entities_ok=True):
+    """The same case through the glue (None if the case cannot travel that way)."""
+    if not glue_eligible(case):
+        return None
+    glue = "entities" if entities_ok and rng.random() < 0.4 else "objects"
+    c = dict(case, glue=glue)
+    if case["op"] == "roundtrip":
+        if not xml_safe_identity(case["ava"]):
+            return None  # the statement is serialised
+        if glue == "entities" and any(not k for k, _v in case["ava"]):
+            return None  # an empty key is sent as an Attribute with an empty Name (see below)
+        c["xml"] = True
+    if case["op"] == "to_local":
+        # get_identity() formats the statement into a log message: it must be serialisable
+        for a in case["attrs"]:
+            if a.get("values") is None:
+                return None
+            for v in a["values"]:
+                if any(not (e.get("text") is None or isinstance(e.get("text"), str)) for e in v.get("ext") or []):
+                    return None
+    if case["op"] == "to_local" and glue == "entities":
+        if not case.get("xml"):
+            return None  # generated for XML transport: text XML carries, values present
+        if any(not a.get("name") for a in case["attrs"]):
+            return None  # a Response with an Attribute without (or with an empty) Name is rejected by the
+            #              message checks before the converters are reached
+    if case["op"] == "to_wire" and glue == "entities" and rng.random() < 0.3:
+        c["via_query"] = True  # Server.create_attribute_response instead of create_authn_response
+    return c
+
+
 def gen_cases(rng, tier):
     for c in _gen_cases(rng, tier):
         yield _xml_safe_eptid(c)
@@ -876,6 +1143,27 @@ def _gen_cases(rng, tier):
             yield {"op": "roundtrip", "maps": {"bundled": idx}, "send": send, "nf": nf, "allow": rng.random() < 0.4,
                    "ava": ava, "xml": xml and xml_safe_identity(ava)}
 
+    # the same kinds of cases through the glue real entities put around the converters (full bundled set)
+    maps = [{"identifier": m["identifier"], "to": m.get("to"), "fro": m.get("fro")} for m in raw]
+    fmts = [m["identifier"] for m in maps]
+    for _ in range(700 if tier == "quick" else 9000):
+        c = rng.randrange(3)
+        nf = rng.choice(fmts + ["urn:x-c17:format:none"])
+        src = [m for m in maps if m["identifier"] == nf][:1]
+        if c == 0:
+            base = {"op": "to_wire", "maps": {"bundled": full}, "send": None, "nf": nf,
+                    "ava": gen_identity(rng, src, False, False, True)}
+        elif c == 1:
+            base = {"op": "to_local", "maps": {"bundled": full}, "allow": rng.random() < 0.5, "xml": rng.random() < 0.7}
+            base["attrs"] = gen_statement(rng, maps, base["xml"])
+        else:
+            ava = gen_identity(rng, src, True, True, allow_empty_eptid=False)
+            base = {"op": "roundtrip", "maps": {"bundled": full}, "send": None, "nf": nf, "allow": rng.random() < 0.5,
+                    "ava": ava, "xml": True}
+        g = glue_variant(rng, base)
+        if g is not None:
+            yield g
+
     # random custom map sets
     for _ in range(500 if tier == "quick" else 6000):
         maps_j, feature = gen_custom_set(rng)
@@ -888,23 +1176,33 @@ def _gen_cases(rng, tier):
             continue
         fmts = [m["identifier"] for m in eff]
         wf = all(round_trip_wf(m) for m in eff)
+        # a share of the sets loaded from real modules is also given to real entities (attribute_map_dir)
+        glue_set = via == "module" and bool(eff) and rng.random() < 0.5
+        glue_entities = glue_set and rng.random() < 0.15
+        batch = []
         for _ in range(rng.randint(4, 10)):
             c = rng.randrange(3)
             xml = rng.random() < 0.35
             if c == 0 or not eff:
                 send = None if (not eff or rng.random() < 0.5) else rng.randrange(len(eff))
                 nf = rng.choice(fmts + ["urn:x-c17:format:none"])
-                yield dict(base, op="to_wire", send=send, nf=nf,
-                           ava=gen_identity(rng, eff if send is None else [eff[send]], False, False, True))
+                batch.append(dict(base, op="to_wire", send=send, nf=nf,
+                                  ava=gen_identity(rng, eff if send is None else [eff[send]], False, False, True)))
             if c == 1 or not eff:
-                yield dict(base, op="to_local", allow=rng.random() < 0.4, xml=xml, attrs=gen_statement(rng, maps, xml))
+                batch.append(dict(base, op="to_local", allow=rng.random() < 0.4, xml=xml, attrs=gen_statement(rng, maps, xml)))
             if c == 2 and eff and wf:
                 send = None if rng.random() < 0.5 else rng.randrange(len(eff))
                 nf = rng.choice(fmts + ["urn:x-c17:format:none"]) if send is None else fmts[send]
                 src = [m for m in eff if m["identifier"] == nf][:1] if send is None else [eff[send]]
                 ava = gen_identity(rng, src, xml, rng.random() < 0.7, allow_empty_eptid=feature is None and rng.random() < 0.15)
-                yield dict(base, op="roundtrip", send=send, nf=nf, allow=rng.random() < 0.4, ava=ava,
-                           xml=xml and xml_safe_identity(ava))
+                batch.append(dict(base, op="roundtrip", send=send, nf=nf, allow=rng.random() < 0.4, ava=ava,
+                                  xml=xml and xml_safe_identity(ava)))
+        for case in batch:
+            yield case
+            if glue_set and rng.random() < 0.7:
+                g = glue_variant(rng, json.loads(json.dumps(case)), entities_ok=glue_entities)
+                if g is not None:
+                    yield g
 
 
 # ------------------------------------------------------------------ shrinking, neighbours, evidence
@@ -922,7 +1220,11 @@ def shrink(case):
             c = dict(case)
             c["maps"] = {"custom": case["maps"]["custom"][:i] + case["maps"]["custom"][i + 1:]}
             yield c
-    if case.get("xml"):
+    if case.get("glue"):
+        c = dict(case)
+        c["glue"] = "objects" if case["glue"] == "entities" else None
+        yield c
+    if case.get("xml") and not case.get("glue"):
         c = dict(case)
         c["xml"] = False
         yield c
@@ -970,7 +1272,7 @@ def search_cases(rng, broken, build_log):
 
 
 def distribution(recs):
-    d = {"ops": {}, "branches": {}, "map_sets": {}, "transport": {}}
+    d = {"ops": {}, "branches": {}, "map_sets": {}, "transport": {}, "glue": {}}
     for r in recs:
         c = r["case"]
         d["ops"][c["op"]] = d["ops"].get(c["op"], 0) + 1
@@ -981,4 +1283,6 @@ def distribution(recs):
             d["map_sets"][k] = d["map_sets"].get(k, 0) + 1
             t = "xml" if c.get("xml") else "objects"
             d["transport"][t] = d["transport"].get(t, 0) + 1
+            g = "%s/%s" % (c.get("glue") or "direct", c["op"])
+            d["glue"][g] = d["glue"].get(g, 0) + 1
     return d
